@@ -507,7 +507,16 @@ class FunctionVerifier:
         I.name_prefix = c.qualname
         # parameters
         argnames = [a.arg for a in self.node.args.posonlyargs + self.node.args.args + self.node.args.kwonlyargs]
-        if self.node.args.kwarg is not None:
+        packs = getattr(c, 'packs', None) or {}        # {'args': sort, 'kwargs': sort}: opaque argument packs (forwarding shims)
+        if self.node.args.vararg is not None:
+            vn = self.node.args.vararg.arg
+            if vn not in packs:
+                raise OutsideSubset('*%s without a declared pack sort' % vn)
+            I.env[vn] = I.fresh(packs[vn], vn)
+        if self.node.args.kwarg is not None and self.node.args.kwarg.arg in packs:
+            kwname = self.node.args.kwarg.arg
+            I.env[kwname] = I.fresh(packs[kwname], kwname)
+        elif self.node.args.kwarg is not None:
             kwname = self.node.args.kwarg.arg
             if getattr(c, 'kwparam', None) != kwname:
                 raise OutsideSubset('**%s without a declared keyword universe' % kwname)
@@ -527,11 +536,15 @@ class FunctionVerifier:
                 I.env[a] = I.fresh(sn, a)
         for n, s in c.forall.items():
             I.env[n] = I.fresh(s, n)
+        for g, gs in (getattr(c, 'globals_', None) or {}).items():
+            I.env[g] = I.fresh(gs, g)            # module-level state: an arbitrary value at entry
         for g, (gs, init) in c.ghost.items():
             I.env[g] = I.coerce(I.ev_pure(ast.parse(init, mode='eval').body), gs)
         I.old_env = dict(I.env)
         I.param_alias = set(argnames)
+        I.argnames = list(argnames)
         I.inputs = {a: I.env[a] for a in argnames if is_z3(I.env[a])}
+        I.inputs.update({g: I.env[g] for g in (getattr(c, 'globals_', None) or {}) if is_z3(I.env[g])})
         if c.yields:
             I.out_sort = c.yields
             I.out = U.nil(c.yields)
@@ -571,8 +584,19 @@ class FunctionVerifier:
                 self.check_raise(I, outcome[1])
         return I
 
+    def check_frame(self, I):
+        """module-level state outside `modifies` is left as it was"""
+        c = self.c
+        for g in (getattr(c, 'globals_', None) or {}):
+            if g in c.modifies:
+                continue
+            now, was = I.env.get(g), I.old_env.get(g)
+            if is_z3(now) and is_z3(was) and not now.eq(was):
+                I.oblige('frame(global %s is unchanged)' % g, now == was, 'frame')
+
     def check_post(self, I, value):
         c = self.c
+        self.check_frame(I)
         env = dict(I.old_env)
         for m in c.modifies:
             env[m] = I.env[m]
@@ -597,6 +621,7 @@ class FunctionVerifier:
 
     def check_raise(self, I, e):
         c = self.c
+        self.check_frame(I)
         allowed = False
         if e.term is not None and getattr(c, 'raises_sym', None) is not None:
             env = dict(I.old_env)
